@@ -778,7 +778,7 @@ func (t *Tree) Compile(file string, args []string, out io.Writer) (err error) {
 						ordered.PushBack(element.Copy())
 					} else {
 						class := &node{Type: TypeUnorderedAlternate}
-						for d := range unicode.MaxRune {
+						for d := range unicode.MaxRune + 1 {
 							if properties[i].s.Has(d) {
 								class.PushBack(&node{Type: TypeCharacter, string: string(d)})
 							}
